@@ -246,7 +246,11 @@ fn process_dir(
                 verif::emit_eval(&entry);
                 let mut matcher_io = matchers::MatcherIO::new(deps);
 
-                let new_dir = entry.parent().map(|x| x.to_path_buf());
+                // "/" has no parent: it is the directory -execdir runs it from.
+                let new_dir = entry
+                    .parent()
+                    .or_else(|| Some(entry.path()))
+                    .map(|x| x.to_path_buf());
                 if new_dir != current_dir {
                     if let Some(dir) = current_dir.take() {
                         matcher.finished_dir(dir.as_path(), &mut matcher_io);
